@@ -146,6 +146,11 @@ def euclidM [Sub α] [Add α] [Mul α] (sqrt : α → α) (p q : α × α) : α 
 /-- Euclidean distance to the diagonal: `(d - b)/√2` -/
 def diagL2M [Sub α] [Div α] [OfNat α 2] (sqrt : α → α) (p : α × α) : α := (p.2 - p.1) / sqrt 2
 
+/-- the instance the driver runs for `cert.rows.bn`: exact rationals (every finite float is one),
+    L∞ / `(d-b)/2` costs, largest third entry equal to the reported distance -/
+def checkBnRat (S T : List (Rat × Rat)) (rows : List (Row Rat)) (dist : Rat) : Bool :=
+  checkRowsBn linfM diagInfM S T rows dist
+
 /-! ### the augmented matrix (`none` = `np.inf`) and the two extraction loops -/
 
 /-- the `(M+N) × (M+N)` matrix of both routines for diagrams `S`, `T` (already placeholder-adjusted):
